@@ -565,8 +565,13 @@ def load_findings():
 # --------------------------------------------------------------------------- evidence
 
 def write_evidence(prop, ev):
-    os.makedirs(os.path.join(VERIF, "evidence"), exist_ok=True)
-    p = os.path.join(VERIF, "evidence", prop + ".json")
+    # evidence/ describes runs against /repo itself; a run against a scratch tree (VERIF_REPO, used by the seeded-change
+    # tools) writes its evidence under build/ so that it can never end up in the committed evidence files
+    d = os.path.join(VERIF, "evidence")
+    if os.path.realpath(REPO) != os.path.realpath("/repo"):
+        d = os.path.join(VERIF, "build", "evidence-scratch", re.sub(r"[^A-Za-z0-9_.-]", "_", os.path.realpath(REPO)))
+    os.makedirs(d, exist_ok=True)
+    p = os.path.join(d, prop + ".json")
     tmp = p + ".tmp%d" % os.getpid()
     with open(tmp, "w") as f:
         json.dump(ev, f, indent=1, sort_keys=True)
